@@ -494,6 +494,18 @@ class Diameter:
 
 
     def send_messages(self, msgs: List[Type[DiameterMessage]]) -> None:
+        #: Same rule as in send_message(): Base protocol messages belong to 
+        #: the PeerStateMachine, an external app cannot send them.
+        for msg in msgs:
+            if isinstance(msg, DiameterMessage):
+                if is_base_request(msg):
+                    raise DiameterApplicationError("Cannot send a Base "\
+                                                   "protocol request")
+
+                if is_base_answer(msg):
+                    raise DiameterApplicationError("Cannot send a Base "\
+                                                   "protocol answer")
+
         for msg in msgs:
             self._association.put_message_into_send_queue(msg)
 
